@@ -3,7 +3,7 @@ import ast
 
 from ..rules import persist
 from ..astutil import call_name, txt, walk_local
-from ..mutate import (Variant, edit_module, find_func, replace_first,
+from ..mutate import (Variant, edit_module, find_func, replace_first, parse_expr,
                       parse_stmts)
 from ..variants import sched as _sched
 
@@ -29,7 +29,10 @@ an unreadable file, i.e. not-done, never the stale entry of an earlier run
 (the property quantifies over write / crash-during-write / read sequences).
 READ-PATH - the path read_env hands to Env.from_file is composed from root,
 task name and file name, never obtained by glob / fnmatch / regular-expression
-matching on them. Not decided: pickle round-trip equality of what was written.
+matching on them. READ-FAITHFUL - the reader unpickles with pickle.load or an Unpickler whose
+find_class / persistent_load never raise (it accepts what the writer wrote).
+READ-NORAISE - exception-escape analysis below read_env: no explicit raise of
+a reached repo function leaves it. Not decided: pickle round-trip equality of what was written.
 '''
 ASSUMPTIONS = [
     'the failure classes of unpickling a truncated/damaged stream are the '
@@ -44,6 +47,7 @@ def check(ctx):
     ctx.run(persist.check_write_all)
     ctx.run(persist.check_write_invalidates)
     ctx.run(persist.check_read_path)
+    ctx.run(persist.check_read_noraise)
     func = ctx.program.func(
         'valjean.cambronne.commands.run:RunCommand.execute')
     src = {}
@@ -163,6 +167,59 @@ def variants(program):
                        'mutant', edit_module(program, common,
                                              write_skips_on_clock),
                        {'WRITE-ALL'}))
+
+    def _custom_unpickler(strict):
+        def editor(tree):
+            fun = find_func(tree, 'Env.from_file')
+            done = replace_first(
+                fun, lambda n: isinstance(n, ast.Call) and txt(n.func) ==
+                'pickle.load',
+                lambda n: parse_expr('EnvUnpickler(file_).load()')
+                if txt(n.args[0]) == 'file_' else ast.Call(
+                    func=ast.Attribute(value=ast.Call(
+                        func=ast.Name(id='EnvUnpickler', ctx=ast.Load()),
+                        args=n.args, keywords=[]), attr='load',
+                        ctx=ast.Load()), args=[], keywords=[]))
+            body = ('    def find_class(self, module, name):\n'
+                    "        if module.partition('.')[0] not in ('builtins', "
+                    "'collections', 'numpy', 'valjean'):\n"
+                    "            raise pickle.UnpicklingError('not allowed')"
+                    '\n        return super().find_class(module, name)\n'
+                    ) if strict else (
+                    '    def find_class(self, module, name):\n'
+                    "        LOGGER.debug('global %s.%s', module, name)\n"
+                    '        return super().find_class(module, name)\n')
+            pos = next(i for i, n in enumerate(tree.body)
+                       if isinstance(n, ast.ClassDef))
+            tree.body[pos:pos] = parse_stmts(
+                'class EnvUnpickler(pickle.Unpickler):\n' + body)
+            return done
+        return editor
+    out.append(Variant('seed-reader-refuses-globals-outside-an-allow-list',
+                       'mutant', edit_module(program, envmod,
+                                             _custom_unpickler(True)),
+                       {'READ-FAITHFUL'},
+                       note='seed C14-r3-1: an intact entry holding a '
+                       'Fraction is "damaged", the task is re-run for ever'))
+    out.append(Variant('twin-reader-with-a-logging-unpickler', 'twin',
+                       edit_module(program, envmod,
+                                   _custom_unpickler(False))))
+
+    def read_validates_names(tree):
+        # seed C14-r3-2
+        fun = find_func(tree, 'read_env')
+        done = replace_first(
+            fun, lambda n: isinstance(n, ast.BinOp) and txt(n) ==
+            'Path(root) / task_name',
+            lambda n: parse_expr('Path(root, sanitize_filename(task_name))'))
+        tree.body.insert(1, parse_stmts(
+            'from ..path import sanitize_filename')[0])
+        return done
+    out.append(Variant('seed-reader-validates-task-names', 'mutant',
+                       edit_module(program, 'valjean.cambronne.common',
+                                   read_validates_names), {'READ-NORAISE'},
+                       note='a task named "suite/case-1" (legal without an '
+                       'output directory) aborts the run'))
 
     def reraise(tree):
         fun = find_func(tree, 'Env.from_file')
